@@ -9,6 +9,8 @@ import numpy as np
 from .. import common as C
 
 PROP = "C15"
+# obligations of the properties this one is downstream of are obligations of this check too (vk.runner.collect_obligations)
+UPSTREAM = ["C05"]
 GEN_REGIONS = ["Attrs", "Miso"]
 THEOREMS = {
     # speckit/systems.py as TRANSLATED on every run (Gen/Miso.lean): the residual statements of both solvers equal the hand model
